@@ -32,6 +32,7 @@
 From Coq Require Import ZArith List Bool.
 Require Import NS.theories.F64 NS.theories.Lang NS.theories.PlanCheck NS.proofs.PlanProofs
                NS.theories.LiveCheck NS.proofs.LiveProofs.
+Require Import NS.theories.WfStatic NS.theories.WfScoped NS.proofs.LiveWf.
 Import ListNotations.
 Open Scope Z_scope.
 
@@ -594,3 +595,147 @@ Example C03_user_call_rhs_is_not_covered :
   x_residual (plan_ok3 ex_user_call [3] []) = ([3], []) /\
   run_impl (Some ([3], [])) eps0 30 ex_user_call = run_impl None eps0 30 ex_user_call.
 Proof. vm_compute. repeat split; reflexivity. Qed.
+
+(* ======================================================================================= *)
+(* ROUND 4 - class 5: a dropped store whose right-hand side calls a USER function           *)
+(* The analysis prunes `x = f(..)` when f is transitively PureNoTrap with no transitive capture
+   write.  `PlanCheck.pf_stmts` is the verified image of that class for a callee body (total
+   pure expressions, literal conditions, assignments to locals of the running activation
+   only, no index assignment / mutation / output / nested definition; calls of other table
+   functions allowed, recursion included).  NOTHING is required about termination. *)
+
+(* the callee, relative to its own run: a call of a table function prints nothing and returns
+   in the very state it was made in - OR the run does not return normally in one of the ways
+   that are not compared: fuel exhaustion (the callee loops or recurses for ever: resource
+   exhaustion), a variable or function that is not there, an argument count / parameter range
+   / stray comot-next the resolver rules out (tolx) *)
+Theorem C03_pure_callee_no_effect :
+  forall P eps pt n e s,
+    pfe pt e = true -> pfns_ok P pt (fns s) ->
+    exists r, eval P eps n e s = ([], r) /\ (tolx r \/ exists v, r = Ok (v, s)).
+Proof. exact pfe_eval. Qed.
+Print Assumptions C03_pure_callee_no_effect.
+
+(* dropping such stores (together with the plain dead stores): the less-pruned run decides;
+   tol_ending_x true e = tol_ending e plus the four panic sites PFuncMissing / PArgCount /
+   PParamRange / PBreakEscapes *)
+Theorem C03_prune_dead_stores_with_calls_sound :
+  forall prog ss fs acc eps fuel o e,
+    ds_ok_x prog (Some (ss, fs)) acc = true ->
+    run_impl (Some (filter (fun i => negb (memz i acc)) ss, fs)) eps fuel prog = (o, e) ->
+    tol_ending_x true e = false ->
+    run_impl (Some (ss, fs)) eps fuel prog = (o, e).
+Proof. exact ds_sound_x. Qed.
+Print Assumptions C03_prune_dead_stores_with_calls_sound.
+
+Theorem C03_plan_ok4_sound :
+  forall prog ss fs eps fuel o e,
+    v_checked (x_main (plan_ok4 prog ss fs)) = true ->
+    x_checked (plan_ok4 prog ss fs) = true ->
+    run_impl (Some (x_residual (plan_ok4 prog ss fs))) eps fuel prog = (o, e) ->
+    tol_ending_x true e = false ->
+    run_impl (Some (ss, fs)) eps fuel prog = (o, e).
+Proof. exact plan_ok4_sound_lemma. Qed.
+Print Assumptions C03_plan_ok4_sound.
+
+Theorem C03_prune_sound_five_classes :
+  forall prog ss fs eps fuel o e,
+    v_checked (x_main (plan_ok4 prog ss fs)) = true ->
+    x_checked (plan_ok4 prog ss fs) = true ->
+    x_residual (plan_ok4 prog ss fs) = ([], []) ->
+    run_impl None eps fuel prog = (o, e) ->
+    tol_ending_x true e = false ->
+    run_impl (Some (ss, fs)) eps fuel prog = (o, e).
+Proof. exact prune_sound_five_classes_lemma. Qed.
+Print Assumptions C03_prune_sound_five_classes.
+
+(* with the static checkers of C06 (wf_static: argument counts, parameter ranges, loop control;
+   wf_scoped: every variable and function a run looks up is there) no panic ending is left
+   out: the ONLY run that is not compared is the one that exhausts its fuel *)
+Theorem C03_prune_sound_five_classes_wf :
+  forall prog ss fs eps fuel o e,
+    v_checked (x_main (plan_ok4 prog ss fs)) = true ->
+    x_checked (plan_ok4 prog ss fs) = true ->
+    x_residual (plan_ok4 prog ss fs) = ([], []) ->
+    wf_static prog = true -> wf_scoped None prog = true ->
+    run_impl None eps fuel prog = (o, e) ->
+    e <> EFuel ->
+    run_impl (Some (ss, fs)) eps fuel prog = (o, e).
+Proof. exact prune_sound_five_classes_wf_lemma. Qed.
+Print Assumptions C03_prune_sound_five_classes_wf.
+
+(* PARTIAL: what class 5 does not cover.  The store must hit a slot that exists (assignment,
+   or re-declaration in the scope that already holds the local).  A pruned FIRST declaration
+   `make u get f(..)` (u mentioned by nothing that runs) goes through the never-read class of
+   PlanCheck, whose right-hand sides are still call-free: missing is the extended tolerance
+   and the pfns_ok invariant in the projection simulation of PlanProofs (main_sim /
+   pruned_exec); C03_pure_callee_no_effect is already the lemma it needs.  The statement that
+   remains to be proved, for the record: *)
+Definition C03_first_declaration_with_call_statement_partial : Prop :=
+  forall prog u i n e rest eps fuel o en,
+    prog = SMake (Some i) n (Some u) e :: rest ->
+    pfe (mk_pt None prog) e = true ->
+    ~ In u (read_ids prog) ->
+    run_impl None eps fuel prog = (o, en) -> tol_ending_x true en = false ->
+    run_impl (Some ([i], [])) eps fuel prog = (o, en).
+
+(* do f(p) start make t get [p, 1]  if to say (true) start t get "{t}" end  return t end
+   make u get 0   u get f(3)   shout(2)                                    plan S 6 F *)
+Definition ex_call_assign : list stmt :=
+  [SFun (Some 0) [102] [[112]]
+     [SMake (Some 1) [116] (Some 1) (EArr [(EVar [112] (Some 0)); (ENum (of_bits 4607182418800017408))]);
+      SIf (Some 2) (EBool true) [SSet (Some 3) [116] (Some 1) (EInterp [SegVar [116] (Some 1)])] None;
+      SRet (Some 4) (Some (EVar [116] (Some 1)))] (Some 1) 0 2;
+   SMake (Some 5) [117] (Some 2) (ENum (of_bits 0));
+   SSet (Some 6) [117] (Some 2) (ECall (EVar [102] None) [(ENum (of_bits 4613937818241073152))] (Some 1));
+   SExpr (Some 7) (ECall (EVar sh None) [(ENum (of_bits 4611686018427387904))] None)].
+
+Example ex_call_assign_verdict :
+  let y := plan_ok4 ex_call_assign [6] [] in
+  mk_pt (Some ([], [])) ex_call_assign = [1] /\
+  v_checked (x_main y) = true /\ x_checked y = true /\ x_acc y = [6] /\ x_residual y = ([], []) /\
+  x_residual (plan_ok3 ex_call_assign [6] []) = ([6], []) /\
+  run_impl (Some ([6], [])) eps0 30 ex_call_assign = run_impl None eps0 30 ex_call_assign /\
+  run_impl None eps0 30 ex_call_assign = ([VNum (of_Z 2)], Done).
+Proof. vm_compute. repeat split; reflexivity. Qed.
+
+(* make x get 1  do g() start x get 2 return 0 end  make u get 0  u get g()  shout(x)
+   g assigns a captured variable: not in the table, the entry is refused *)
+Definition ex_call_impure : list stmt :=
+  [SMake (Some 0) [120] (Some 0) (ENum (of_bits 4607182418800017408));
+   SFun (Some 1) [103] [] [SSet (Some 2) [120] (Some 0) (ENum (of_bits 4611686018427387904));
+                           SRet (Some 3) (Some (ENum (of_bits 0)))] (Some 1) 0 0;
+   SMake (Some 4) [117] (Some 1) (ENum (of_bits 0));
+   SSet (Some 5) [117] (Some 1) (ECall (EVar [103] None) [] (Some 1));
+   SExpr (Some 6) (ECall (EVar sh None) [(EVar [120] (Some 0))] None)].
+
+Example ex_call_impure_refused :
+  mk_pt (Some ([], [])) ex_call_impure = [] /\
+  ds_ok_x ex_call_impure (Some ([5], [])) [5] = false /\
+  run_impl None eps0 30 ex_call_impure = ([VNum (of_Z 2)], Done) /\
+  run_impl (Some ([5], [])) eps0 30 ex_call_impure = ([VNum (of_Z 1)], Done).
+Proof. vm_compute. repeat split; reflexivity. Qed.
+
+(* BOUNDARY (resource exhaustion, not compared): do f() start return f() end
+   make u get 0   u get f()   shout(2)                    the real analysis emits plan S 3 F
+   f is in the class (nothing asks a pruned callee to terminate): the checker accepts the
+   entry; the plain run never returns from f - at every fuel it ends EFuel (the real run:
+   Stack overflow), the pruned run prints 2.  The hypothesis tol_ending_x true e = false /
+   e <> EFuel of the theorems is exactly what leaves this pair of runs out. *)
+Definition ex_call_diverges : list stmt :=
+  [SFun (Some 0) [102] [] [SRet (Some 1) (Some (ECall (EVar [102] None) [] (Some 1)))] (Some 1) 0 0;
+   SMake (Some 2) [117] (Some 0) (ENum (of_bits 0));
+   SSet (Some 3) [117] (Some 0) (ECall (EVar [102] None) [] (Some 1));
+   SExpr (Some 4) (ECall (EVar sh None) [(ENum (of_bits 4611686018427387904))] None)].
+
+Example C03_nonterminating_callee_is_not_compared :
+  ds_ok_x ex_call_diverges (Some ([3], [])) [3] = true /\
+  run_impl None eps0 40 ex_call_diverges = ([], EFuel) /\
+  run_impl None eps0 400 ex_call_diverges = ([], EFuel) /\
+  run_impl (Some ([3], [])) eps0 40 ex_call_diverges = ([VNum (of_Z 2)], Done).
+Proof. vm_compute. repeat split; reflexivity. Qed.
+
+(* the first-declaration form stays outside (see the partial statement above) *)
+Example C03_first_declaration_with_call_not_covered :
+  x_residual (plan_ok4 ex_user_call [3] []) = ([3], []).
+Proof. vm_compute. reflexivity. Qed.
